@@ -247,6 +247,36 @@ func tw(fs ...func(a *ap.App)) func(a *ap.App) {
 func onFollow(b pub.OnFollowBehavior) func(a *ap.App) { return func(a *ap.App) { a.OnFollow = b } }
 func callbacks(m ap.CallbackMode) func(a *ap.App)     { return func(a *ap.App) { a.Callbacks = m } }
 
+// CorpusWithHooks is the corpus plus every POST scenario again with application hooks wrapped around
+// the default callbacks (unless the scenario already configures the callbacks itself).
+func CorpusWithHooks() []*Scenario {
+	base := Corpus()
+	out := append([]*Scenario(nil), base...)
+	for _, sc := range base {
+		if sc.Entry != "PostInbox" && sc.Entry != "PostOutbox" {
+			continue
+		}
+		probe := BaseWorld()
+		if sc.Tweak != nil {
+			sc.Tweak(probe)
+		}
+		if probe.Callbacks != ap.CBNone {
+			continue
+		}
+		c := *sc
+		c.Name += "+hooks"
+		inner := sc.Tweak
+		c.Tweak = func(a *ap.App) {
+			if inner != nil {
+				inner(a)
+			}
+			a.Callbacks = ap.CBWrapped
+		}
+		out = append(out, &c)
+	}
+	return out
+}
+
 // Corpus returns the scenarios covering every default side-effect path of both protocols.
 func Corpus() []*Scenario {
 	var s []*Scenario
